@@ -79,7 +79,7 @@ def generate(seed, tier="quick"):
         pos = len(ops)
         if k + len(init_value_ops.__name__) * 0 + 0 >= 0 and (len(persists) < len(points)) and (len(ops) >= points[len(persists)] or k == nops):
             cont = o.choice(["copy", "copy", "orig", "both"])
-            p = {"at": pos, "how": o.choice(["pickle", "deepcopy"]), "cont": cont}
+            p = {"at": pos, "how": o.choice(["pickle", "deepcopy"]), "cont": cont, "run_before": o.choice([None, None, "eager", "jit", "jit"])}
             if cont == "both":
                 dw2 = DryWorld.__new__(DryWorld)
                 dw2.__dict__.update({"shape": shape, "m": None, "ref": dw.ref.clone(), "violations": [], "stats": {}, "stopped": None, "op_index": None})
@@ -254,6 +254,17 @@ def execute(program):
         pos = at
         if w.stopped or w.violations:
             return res()
+        if p.get("run_before"):
+            # the module was just simulated (eagerly or under jax.jit) when it is pickled / copied
+            sarg, st_ = runnable(w.ref, program)
+            if st_ is not None:
+                try:
+                    simrun.integrate(w.m, steps=sarg, dt=program["dt"], solver=program["solver"], vsolver=program["vsolver"], mode=p["run_before"],
+                                     params=w.m.get_parameters() if w.ref.trainables else None)
+                    w.bump("fault_knob_run_before_persist_" + p["run_before"])
+                except Exception as e:  # noqa: BLE001
+                    if exc_in_harness(e):
+                        raise HarnessError(str(e)) from e
         try:
             m2 = faults.persist(w.m, p["how"])
         except Exception as e:  # noqa: BLE001
@@ -341,6 +352,10 @@ def simplify(program):
         if p["at"] > 0:
             q = copy.deepcopy(program)
             q["persists"][i]["at"] = p["at"] - 1
+            yield q
+        if p.get("run_before"):
+            q = copy.deepcopy(program)
+            q["persists"][i]["run_before"] = None
             yield q
     for i, op in enumerate(program["ops"]):
         if op.get("view"):
